@@ -15,7 +15,8 @@ from .. import doccheck, editgen, engine_oracles, engine_run, gen, ooxml, sem
 
 PROFILES = {"default": {}, "breaks": {"br": 0.45, "tab": 0.2, "fmt": 0.8, "ins": 0.05, "del": 0.05, "subst": 0.0, "comment": 0.1,
                                       "hyperlink": 0.0, "vmerge": 0.0, "point_comment": 0.0, "runs": (2, 5)}, "tables": {"table": 0.5, "nested_table": 0.3, "empty_para": 0.15, "header": 0.5, "footer": 0.5},
-            "markup": {"fmt": 0.7, "comment": 0.3, "reply": 0.6, "ins": 0.3, "del": 0.3, "subst": 0.2, "br": 0.2, "empty_run": 0.15}}
+            "markup": {"fmt": 0.7, "comment": 0.3, "reply": 0.6, "ins": 0.3, "del": 0.3, "subst": 0.25, "br": 0.2, "empty_run": 0.15,
+                       "comment_on_del": 0.4, "overlap_comment": 0.15}}
 
 
 def work(case):
@@ -76,6 +77,12 @@ def indexed_edit_case(case, data, raw):
             continue
         i = rng.randrange(len(words) - 1)
         j = rng.randrange(i + 1, min(len(words), i + 4))
+        # prefer a range that crosses a line break inside one formatted run (several spans of the engine's index, one run)
+        cross = [(x, y) for x in range(len(words) - 1) for y in range(x + 1, min(len(words), x + 4))
+                 if any(c["c"] == "\n" for c in pv.chars[words[x][0]:words[y][1]])
+                 and len({c["run"] for c in pv.chars[words[x][0]:words[y][1]] if c["c"] != "\n"}) == 1]
+        if cross and rng.random() < 0.7:
+            i, j = rng.choice(cross)
         a, b = words[i][0], words[j][1]
         seg = pv.chars[a:b]
         if any(c["state"] != "plain" for c in seg) or len({c["comments"] for c in seg}) > 1:
